@@ -890,9 +890,11 @@ class Object(base.Symbolic, metaclass=ObjectMeta):
       if deep or isinstance(v, base.Symbolic):
         v = base.clone(v, deep, memo)
       kwargs[k] = v
-    return self.__class__(allow_partial=self._allow_partial,
-                          sealed=self._sealed,
-                          **kwargs)  # pytype: disable=not-instantiable
+    other = self.__class__(allow_partial=self._allow_partial,
+                           sealed=self._sealed,
+                           **kwargs)  # pytype: disable=not-instantiable
+    # The accessor-writable flag may have been changed per instance.
+    return other.set_accessor_writable(self.accessor_writable)
 
   def _sym_missing(self) -> Dict[str, Any]:
     """Returns missing values."""
